@@ -349,8 +349,6 @@ def gen_setup_sdes(m, src, variants, offer_suite):
         "let remote_crypto = remote_desc .as_ref() .and_then(|d| d.media_sections.first()) .and_then(|m| m.get_crypto_attributes().into_iter().next());",
         "let local_crypto = local_desc .as_ref() .and_then(|d| d.media_sections.first()) .and_then(|m| m.get_crypto_attributes().into_iter().next());",
         "let profile = map_crypto_suite(&remote.crypto_suite)?; if profile != map_crypto_suite(&local.crypto_suite)? { return Err(RtcError::Internal(\"Crypto suite mismatch\".into())); }",
-        "let rx_key_salt = parse_sdes_key_params(&remote.key_params)?;",
-        "let tx_key_salt = parse_sdes_key_params(&local.key_params)?;",
         "crate::srtp::SrtpSession::new(profile, tx_keying, rx_keying)",
     ]
     for n in need:
@@ -372,9 +370,13 @@ def gen_setup_sdes(m, src, variants, offer_suite):
         parts[d] = (zexpr(km.group(1)), zexpr(km.group(2)), zexpr(km.group(3)))
     if parts["rx"] != parts["tx"]:
         raise Untranslatable("setup_sdes: rx and tx use different slice bounds")
-    m.raw("(* tx keying is cut from the LOCAL description's first a=crypto, rx keying from the REMOTE one *)\n"
+    srcs = {}
+    for d in ("rx", "tx"):
+        sm = one(r"let %s_key_salt = parse_sdes_key_params\(&(remote|local)\.key_params\)\?;" % d, b, "setup_sdes: source of %s keying" % d)
+        srcs[d] = sm.group(1)
+    m.raw("(* which description's first a=crypto the tx / rx keying is cut from *)\n"
           "Inductive SdesSrc : Set := Sdes_local | Sdes_remote.\n"
-          "Definition sdes_tx_source : SdesSrc := Sdes_local.\nDefinition sdes_rx_source : SdesSrc := Sdes_remote.\n"
+          "Definition sdes_tx_source : SdesSrc := Sdes_%s.\nDefinition sdes_rx_source : SdesSrc := Sdes_%s.\n" % (srcs["tx"], srcs["rx"]) +
           "Definition sdes_key_hi (key_len salt_len : Z) : Z := %s.\n"
           "Definition sdes_salt_lo (key_len salt_len : Z) : Z := %s.\n"
           "Definition sdes_salt_hi (key_len salt_len : Z) : Z := %s." % parts["tx"],
